@@ -102,6 +102,11 @@ def w_model(case):
     n_ids = case['n_ids']
     top = np.array(case['top'], dtype=float)
     obs = np.array(case['obs'], dtype=float).reshape(n_ids, rp.n_dim(spec))
+    if case.get('variant') == 'int':
+        # whole-number parameters and observations handed over as integer arrays
+        # (the reference functions convert to complex / float themselves)
+        top = top.astype(int)
+        obs = obs.astype(int)
     cov = None if case.get('cov') is None else np.array(case['cov'], dtype=float)
     c = None if case.get('dlogp') is None else \
         np.array(case['dlogp'], dtype=float).reshape(obs.shape)
@@ -374,6 +379,18 @@ def make_case(spec, n_ids, seed, with_c, variant='support'):
             obs[-1, -1] += 0.25
         else:
             obs[0, 0] = -0.3
+    if variant == 'int':
+        # whole numbers inside the support; pooled / heterogeneous observations
+        # follow the rounded parameters
+        top = [float(max(1, round(abs(v))) + (2 if i < 10 ** 9 else 0))
+               for i, v in enumerate(top)]
+        obs = np.maximum(1, np.round(np.abs(popvals.obs_values(
+            spec, top, n_ids, cov, seed))))
+        sp = rp.special(spec)
+        psi = np.real(rp.psi_of(spec, np.array(top), obs, cov))
+        for k_, kind in enumerate(sp):
+            if kind is not None:
+                obs[:, k_] = psi[:, k_]
     c = vals.reals('c05.c', n_ids * d, -1.5, 1.5, seed) if with_c else None
     return {'spec': spec, 'n_ids': n_ids, 'top': list(top),
             'obs': obs.flatten().tolist(),
@@ -396,6 +413,7 @@ def build(tier, seed):
                 elem_cases.append(make_case(spec, n_ids, seed, False, 'neg_sigma'))
             if k in ('LN', 'TG', 'P', 'H') and spec.get('centered', True):
                 elem_cases.append(make_case(spec, n_ids, seed, False, 'bad_obs'))
+            elem_cases.append(make_case(spec, n_ids, seed, True, 'int'))
     # covariate wrappers (default selection; selections are C07's subject)
     for inner in popbuild.elementary(min(max_d, 2),
                                      ('G', 'Gnc', 'LN', 'LNnc', 'TG', 'P')):
@@ -410,6 +428,8 @@ def build(tier, seed):
     n_parts = (2,) if tier == 'quick' else (2, 3)
     for k in n_parts:
         dims_choices = [(1,) * k] if k == 3 else [(1, 1), (2, 1), (1, 2)]
+        if k == 2 and tier == 'thorough':
+            dims_choices += [(2, 2), (3, 1), (1, 3)]
         for seq in itertools.product(kinds, repeat=k):
             for dims in dims_choices:
                 if k == 2 and dims != (1, 1) and tier == 'quick' and \
@@ -419,6 +439,12 @@ def build(tier, seed):
                 spec = rp.Comp(parts)
                 for n_ids in range(1, max_ids + 1):
                     comp_cases.append(make_case(spec, n_ids, seed, True))
+    # whole-number parameters / observations as integer arrays on a few compositions
+    for spec in (rp.Comp([rp.G(1), rp.P(1), rp.LN(1, False)]),
+                 rp.Comp([rp.H(1), rp.TG(1)]),
+                 rp.Comp([rp.Cov(rp.G(1), 1), rp.LN(1)])):
+        for n_ids in range(1, max_ids + 1):
+            comp_cases.append(make_case(spec, n_ids, seed, True, 'int'))
     # nested composition
     nested = rp.Comp([rp.Comp([rp.G(1), rp.P(1)]), rp.LN(1, False)])
     for n_ids in range(1, max_ids + 1):
